@@ -26,6 +26,15 @@ def coll_ops(ctx, marker):
     return out
 
 
+def is_full_removal(site):
+    """`list.clear()` or `list.drain(..)` with the full range: both leave the list empty"""
+    if site is None or site.fn is None:
+        return False
+    if site.ck == "std::vec::Vec::clear":
+        return True
+    return site.ck == "std::vec::Vec::drain" and any("RangeFull" in a for a in (site.fn.get("args") or []))
+
+
 ITER_BAD = {"rev", "skip", "take", "step_by", "filter", "skip_while", "take_while", "filter_map", "rposition", "next_back", "nth", "nth_back", "last", "chain", "zip", "cycle", "peekable", "map_while"}
 
 
@@ -49,9 +58,9 @@ def su1_mutators(ctx, rep, marker="Subscriber<", what="subscriber list", floors=
             if m == "retain":
                 n_retain += 1
                 rep.ok(R, "removal:retain:%s" % fn, s.where, "stable removal (retain)")
-            elif m == "clear":
+            elif m == "clear" or is_full_removal(s):
                 n_clear += 1
-                rep.ok(R, "removal:clear:%s" % fn, s.where, "clear")
+                rep.ok(R, "removal:clear:%s" % fn, s.where, "clear" if m == "clear" else "drain(..) of the whole list")
             else:
                 rep.bad(R, "unrecognised-removal:%s:%s" % (m, fn), s.where, "%s elements are removed with %s (neither the unsubscribe retain nor the shutdown clear)" % (what, m))
         elif m not in READERS:
@@ -283,7 +292,7 @@ def su3_shutdown_release(ctx, rep):
     lock = A.lock_id(A.f_subscribers)
     recv = [k for k, s, l in ctx.revents(lambda l: l == "RECV")]
     unsub = ctx.revents(lambda l: l == "UNSUB")
-    clears = G.call_nodes(lambda s: s.ck == "std::vec::Vec::clear" and "Subscriber<" in ((s.fn.get("args") or [""])[0]))
+    clears = G.call_nodes(lambda s: is_full_removal(s) and "Subscriber<" in ((s.fn.get("args") or [""])[0]))
     rep.floor(R, "on_unsubscribe sites after the receive loop", len(unsub), 1)
     if not rep.floor(R, "clear sites after the receive loop", len(clears), 1):
         return
@@ -314,11 +323,29 @@ def su3_shutdown_release(ctx, rep):
             if p.end != "return":
                 continue
             n += 1
-            cl = [e for e in p.calls() if e.ck == "std::vec::Vec::clear"]
+            cl = [e for e in p.calls() if is_full_removal(e.site)]
             un = [e for e in p.calls() if e.site is not None and A.event(e.site) == "UNSUB"]
-            good = len(cl) == 1 and all(p.events.index(u) < p.events.index(cl[0]) for u in un)
+            if cl and cl[0].ck == "std::vec::Vec::drain":
+                # `for s in list.drain(..) { s.on_unsubscribe() }`: emptied first, released while draining
+                good = len(cl) == 1 and all(p.events.index(u) > p.events.index(cl[0]) for u in un)
+            else:
+                good = len(cl) == 1 and all(p.events.index(u) < p.events.index(cl[0]) for u in un)
             rep.check(good, R, "unsubscribe-all-then-clear:" + short(b.path), ctx.where(b), "path [%s]: on_unsubscribe for the elements, then one clear" % p.describe(), "path [%s]: %d clear(s), order broken" % (p.describe(), len(cl)))
         rep.floor(R, "release paths", n, 2, ctx.where(b))
+        # the release survives a poisoned list lock (a subscriber callback may have panicked under
+        # it): the lock result is matched / recovered with into_inner, never unwrapped
+        for p in pe.paths:
+            for e in p.calls():
+                if e.ck in ("std::result::Result::unwrap", "std::result::Result::expect") and e.args and e.args[0][0] == "lockres" \
+                        and any(st[0] == "field" and st[2] == A.f_subscribers for st in subterms(e.args[0])):
+                    rep.bad(R, "shutdown-release-survives-poisoned-list-lock:" + short(b.path), ctx.where(b, e.bb),
+                            "the shutdown release unwraps the list lock: after a subscriber callback panicked under that lock the reducer thread's epilogue panics too and nobody is released")
+                    break
+            else:
+                continue
+            break
+        else:
+            rep.ok(R, "shutdown-release-survives-poisoned-list-lock:" + short(b.path), ctx.where(b), "the list lock's result is never unwrapped in the shutdown release")
     # full forward iteration in the release loops
     for k, s, l in unsub:
         _full_iteration(ctx, rep, R, s, "UNSUB")
@@ -332,7 +359,9 @@ def _full_iteration(ctx, rep, R, s, lab):
     lp = _loop_of(cfg, s.bb)
     key = "%s:%s" % (lab, short(body.path))
     if lp is None:
-        rep.bad(R, "in-loop:" + key, s.where, "%s is not inside a loop over the list" % lab)
+        from rules.pipe import for_each_iteration
+        if not for_each_iteration(ctx, rep, R, s, lab, key):
+            rep.bad(R, "in-loop:" + key, s.where, "%s is not inside a loop over the list" % lab)
         return
     h, blks = lp
     recv = bp.arg_term(s.bb, 0)
@@ -342,7 +371,11 @@ def _full_iteration(ctx, rep, R, s, lab):
         return
     nsite = Site(body, nexts[0][1][1], body.blocks[nexts[0][1][1]]["term"])
     it_ty = nsite.fn["args"][0] if nsite.fn.get("args") else "?"
-    rep.check(it_ty.startswith("std::slice::Iter<"), R, "plain-forward-iterator:" + key, nsite.where, "iterates %s" % it_ty, "iterates %s" % it_ty)
+    full_drain = False
+    if it_ty.startswith("std::vec::Drain<"):
+        src = [st for st in subterms(bp.arg_term(nsite.bb, 0)) if st[0] == "call" and st[2] == "std::vec::Vec::drain" and st[1][0] == body.path]
+        full_drain = len(src) == 1 and is_full_removal(Site(body, src[0][1][1], body.blocks[src[0][1][1]]["term"]))
+    rep.check(it_ty.startswith("std::slice::Iter<") or full_drain, R, "plain-forward-iterator:" + key, nsite.where, "iterates %s" % it_ty, "iterates %s" % it_ty)
     exits = [(a, b) for a in blks for b in cfg.succ[a] if b not in blks]
     for a, b in exits:
         after = a in cfg.reachable_from(list(cfg.succ[s.bb]), avoid=[h]) or a == s.bb
